@@ -334,6 +334,70 @@ def unit_word_hour(ctx, T):
                          failing_input={'op': l, 'implementation': a, 'model': m})
 
 
+def zh_variant(T):
+    """'1' when ChineseTimeParser comments a description-less 19:13 `ampm` (finding zh-ampm-any-hour), '0' when guarded."""
+    tp = T.time_parser('zh-cn')
+    ref = ref_dt(REFS[1])
+    er = tp.inner_extractor.extract('19:13', ref)[0]
+    return '1' if tp.parse(er, ref).value.comment == 'ampm' else '0'
+
+
+def unit_zh_time(ctx, T):
+    """ChineseTimeParser.parse (handle_digit / handle_chinese, add_description, pack_time_result) on the extractor's own
+    results for generated digit and 汉字 clock times; `handle_less` results are skipped (not modelled)."""
+    tp = T.time_parser('zh-cn')
+    variant = zh_variant(T)
+    ctx.extra['zh_ampm_variant'] = 'every hour (as found)' if variant == '1' else 'guarded 0 < hour <= 12'
+    han = ['零', '一', '二', '两', '三', '四', '五', '六', '七', '八', '九', '十', '十一', '十二', '十三', '十五', '十九', '二十', '二十一',
+           '二十三', '二十四']
+    descs = ['', '上午', '下午', '晚上', '中午', '早上', '凌晨', '傍晚', '午后', '夜里']
+    strings = []
+    for d in descs:
+        for h in list(range(0, 25)):
+            for tail in (':00', ':05', ':30', ':59', ':30:15', '点', '点半', '点一刻', '点三刻', '点15分', '点05分30秒', '时', '点整'):
+                strings.append('%s%d%s' % (d, h, tail))
+        for hh in han:
+            for tail in ('点', '点半', '点一刻', '点十五分', '点二十分', '点五十九分', '时三十分', '点零五分'):
+                strings.append(d + hh + tail)
+    strings += ['12点pm', '3点pm', '7:30pm', '23:59:59', '24:00', '0:0', '9:5']
+    lines, impl, meta = [], [], []
+    seen = set()
+    for i, s in enumerate(strings):
+        ref = ref_dt(REFS[i % len(REFS)])
+        try:
+            ers = tp.inner_extractor.extract(s, ref)
+        except Exception:
+            continue
+        for er in ers:
+            extra = er.data
+            if extra is None or extra.data_type.name == 'LessTime':
+                continue
+            ne = extra.named_entity
+            g = [next(iter(ne.get(k, [])), '') for k in ('hour', 'min', 'sec', 'quarter', 'half', 'daydesc')]
+            key = (extra.data_type.name,) + tuple(g)
+            if key in seen:
+                continue
+            seen.add(key)
+            try:
+                a = dtres.res_str(tp.parse(er, ref).value)
+            except Exception as e:
+                a = dtres.err_kind(e)
+            lines.append('\t'.join(['dt.zhtime', dtres.dt_field(ref), variant, dtres.b(extra.data_type.name == 'ChineseTime')] +
+                                   [cps(x) for x in g]))
+            impl.append(a)
+            meta.append((s, er.text, key))
+    model = common.driver(lines)
+    ctx.count('ChineseTimeParser.parse', len(lines))
+    for (s, text, key), l, a, m in zip(meta, lines, impl, model):
+        if a.startswith('1|'):
+            ctx.nontriv(('zh', key))
+        if a != m:
+            dtres.report(ctx, 'correspondence', 'zh-time-parser', 'ChineseTimeParser.parse(%r) groups %r: implementation %s, model %s' % (
+                text, key, a, m), failing_input={'op': l, 'text': text, 'groups': list(key), 'implementation': a, 'model': m})
+    if lines:
+        ctx.sample({'op': lines[len(lines) // 2], 'implementation': impl[len(lines) // 2]})
+
+
 def unit_resolution(ctx, T):
     """_date_time_resolution (+ _resolve_ampm, _generate_from_resolution) on synthetic slots."""
     from recognizers_date_time.date_time.parsers import DateTimeParseResult
@@ -689,6 +753,7 @@ def correspond(ctx):
     unit_format(ctx, T)
     unit_match_to_time(ctx, T, variant)
     unit_word_hour(ctx, T)
+    unit_zh_time(ctx, T)
     unit_resolution(ctx, T)
     unit_merge(ctx, T, variant)
     pipeline(ctx, variant)
